@@ -25,6 +25,7 @@ pub fn op_label(op: Option<&Op>) -> &'static str {
 	match op {
 		None => "end",
 		Some(Op::Serialize { .. }) => "serialize",
+		Some(Op::SerializeAll { .. }) => "serialize-all",
 		Some(Op::Blob { .. }) => "serialize-blob",
 		Some(Op::PushCrate { .. }) => "push-crate",
 		Some(Op::PushRef { .. }) => "push-ref",
@@ -310,6 +311,15 @@ pub fn shrink_spec(spec: &FileSpec) -> Vec<FileSpec> {
 						pres: PresCfg::plain(),
 						poison: *poison,
 					};
+					c.push(s);
+				}
+			}
+			Op::SerializeAll { items } if items.len() > 1 => {
+				for j in 0..items.len() {
+					let mut s = spec.clone();
+					let mut it = items.clone();
+					it.remove(j);
+					s.ops[i] = Op::SerializeAll { items: it };
 					c.push(s);
 				}
 			}
